@@ -20,6 +20,19 @@ HEAD = ("From Coq Require Import ZArith List String Bool.\nFrom NadaV.PyMini Req
 SIG_CHUNK = 25
 
 
+def text_variants(text):
+    """semantics-preserving re-writings of a program text that has a top-level nada_main"""
+    out = []
+    out.append(("body-in-a-helper", text.replace("\ndef nada_main():\n", "\ndef build_everything():\n", 1)
+                + "\n\ndef nada_main():\n    return build_everything()\n"))
+    out.append(("unused-first-statement", text.replace("\ndef nada_main():\n", "\ndef nada_main():\n    unused_first = 0\n", 1)))
+    out.append(("unrelated-function-before", text.replace("\ndef nada_main():\n", "\ndef unrelated(n):\n    return n + 1\n\n\ndef nada_main():\n", 1)))
+    lines = text.rstrip("\n").split("\n")
+    if lines[-1].startswith("    return [") and lines[-1].endswith("]"):
+        out.append(("outputs-as-a-tuple", "\n".join(lines[:-1] + ["    return tuple(" + lines[-1][len("    return "):] + ")"]) + "\n"))
+    return out
+
+
 def run_sig(texts, chunk=SIG_CHUNK):
     chunks = [texts[i:i + chunk] for i in range(0, len(texts), chunk)]
 
@@ -247,6 +260,26 @@ def run(ctx):
                                            audited_later_in_the_same_process=texts[i + 1:(i // SIG_CHUNK + 1) * SIG_CHUNK][:6]),
                                  observed=dict(when_returned=sigs[i]["sig"], after_later_calls=sigs[i]["sig_after_later_calls"]),
                                  how_to_replay="PYTHONPATH=<repo> /venv/bin/python /verif/tools/impl_sig.py (stdin: JSON list of these texts in order)"))
+    # metamorphic: the same program re-written without changing what it does has the same signature
+    base = [i for i in range(len(texts)) if "sig" in sigs[i] and "\ndef nada_main():\n" in texts[i]][:(60 if ctx.tier == "quick" else 600)]
+    variants = []
+    for i in base:
+        for vname, vtext in text_variants(texts[i]):
+            variants.append((i, vname, vtext))
+    vsigs = run_sig([t for _, _, t in variants])
+    nvbad = 0
+    for (i, vname, vtext), vs in zip(variants, vsigs):
+        if vs.get("sig") != sigs[i]["sig"]:
+            nvbad += 1
+            if nvbad <= 4:
+                vlib.report_failure(ctx, "C18/other-spelling:" + vname,
+                                    f"the program re-written as `{vname}` has another signature than its plain text (or none)",
+                                    dict(case=dict(kind="program", family=fams[i], source_text=vtext, plain_source_text=texts[i]),
+                                         observed=vs.get("sig") or vs, expected=sigs[i]["sig"],
+                                         how_to_replay="PYTHONPATH=<repo> /venv/bin/python /verif/tools/impl_sig.py (stdin: JSON list with both texts)"))
+    ctx.note(f"validate: {len(variants)} re-writings of {len(base)} programs (body in a helper, outputs as a tuple, an unused first statement, "
+             f"an unrelated function before nada_main): {nvbad} change the signature")
+    ctx.cov["rewritten_programs"] = len(variants)
     hist = collections.Counter((f, "sig-ok" if "sig" in s else "sig-raises", "mir-ok" if "ok" in m else "mir-raises")
                                for f, s, m in zip(fams, sigs, mirs))
     both = [i for i in range(len(texts)) if "sig" in sigs[i] and "ok" in mirs[i]]
